@@ -7,7 +7,7 @@ renumbered, arguments become assignments, `return` becomes an assignment to the 
 analyses then see the code as if the statements had never been moved.  Not inlined: closures, generic instances,
 recursive helpers, helpers above the size bound (those stay opaque calls, and a rule that needs to look inside
 reports an unrecognised path)."""
-import copy, json, os
+import copy, json, os, re
 
 MAX_BLOCKS = 120
 MAX_ROUNDS = 4
@@ -62,8 +62,14 @@ def inline_new_helpers(raw, vocabulary, strip_lt, log=None):
             return False
         if len(b["blocks"]) > MAX_BLOCKS:
             return False
+        m = re.match(r"^<(.+) as ([^<>]+)>::(\w+)$", p)
+        if m and not m.group(2).startswith(("std::", "core::", "alloc::")) and m.group(2) + "::" + m.group(3) in voc_all:
+            # a new override of a method of one of the crate's own traits is not a helper: it replaces the trait's
+            # default for that type, and the per-implementation tables must see it as an implementation
+            return False
         return True
 
+    voc_all = set(vocabulary)
     new = {p for p in by_path if eligible(p)}
     if not new:
         return []
